@@ -91,6 +91,27 @@ def gen_scripts(ck):
         for combo in itertools.product("245", repeat=nr):
             for fin in ("2", "4", "5", "cut"):
                 out.append((nr, [good["greet"], good["helo"], good["mail"]] + [pick(c) for c in combo] + [good["data"], pick(fin)]))
+    # very long multi-line replies (more reply text than qmail-remote keeps): the continuation lines must still be read to
+    # their end, or every later reply is taken for the answer to the wrong command
+    def huge(code, lines=100, width=60):
+        c = str(code).encode()
+        return b"".join(c + b"-" + bytes([97 + (k % 26)]) * width + b"\r\n" for k in range(lines)) + c + b" end\r\n"
+    for nr in (1, 2):
+        phases = ["greet", "helo", "mail"] + ["rcpt%d" % i for i in range(nr)] + ["data", "final"]
+        for p in phases[:-1]:
+            for tail in (["2"] * 8, ["5", "2", "3", "5"], ["2", "5", "3", "2"], ["4", "2", "3", "4"]):
+                base = {"greet": b"220 hi\r\n", "helo": b"250 hello\r\n", "mail": b"250 ok\r\n", "data": b"354 go\r\n", "final": b"250 queued\r\n"}
+                for i in range(nr): base["rcpt%d" % i] = b"250 ok\r\n"
+                seq = []
+                k = 0
+                for q in phases:
+                    if q == p: seq.append(huge({"greet": 220, "data": 354}.get(q, 250), lines=rng.choice([84, 100, 120])))
+                    elif phases.index(q) > phases.index(p):
+                        cls = tail[k % len(tail)]; k += 1
+                        if q == "data" and cls == "2": cls = "3"
+                        seq.append({"2": b"250 ok\r\n", "3": b"354 go\r\n", "4": b"451 later\r\n", "5": b"554 no\r\n"}[cls])
+                    else: seq.append(base[q])
+                out.append((nr, seq))
     for _ in range(1500 if ck.thorough else 300):
         nr = rng.randint(1, 3)
         n = 5 + nr
